@@ -31,6 +31,8 @@ def run(ctx, proof):
     cases = campaign.make_cases(ctx, COMPS, "sa", plan)
     mism = campaign.run_cases(ctx, cases, ORACLES)
     mism += campaign.run_histories(ctx, COMPS, "sa", hplan, ORACLES)
+    import coqshard
+    coqshard.cross_check(ctx, cases, limit=8 if ctx.quick else 40)
     campaign.report_mismatches(ctx, mism, ORACLES, "compute_bounds (impl) = compute (Bounds.v model) on the same table")
     ctx.coverage["exhaustive"] = False
     ctx.coverage["knowledge_sets_exhaustive_for_n"] = [2, 3] if ctx.quick else [2, 3, 4]
